@@ -236,38 +236,74 @@ Proof. reflexivity. Qed.
    The paths around the gate: get_property, the system '.', '?.', the other indexers, call()
    ===================================================================================== *)
 
-(* an object the form's Yaqlized type check rejects (not yaqlized at all, or that switch off):
-   every path ends in a resolution error, the RuntimeError of the kwargs filter, or overload
-   resolution among REGISTERED functions (C07_only_gated_payloads_touch_hosts says what those
-   may do); none performs a member access *)
+(* an object the form's Yaqlized type check rejects (not yaqlized at all, or that switch off), and
+   that is not fed as a callable VALUE into a lambda parameter through call() (known finding F20,
+   below): every path ends in a resolution error, the RuntimeError of the kwargs filter, or overload
+   resolution among REGISTERED functions (C07_only_gated_payloads_touch_hosts says what those may
+   do); none performs a member access and none calls the object *)
 Theorem C07_fallback_never_reaches_host : forall rs ps cfg reg_fn reg_meth st p,
-  (forall f, path_form p = Some f -> yaqlized_check f st = false) ->
+  (forall f, path_form p = Some f -> yaqlized_check f st = false) -> path_lam p = false ->
   (forall m, run_path rs ps cfg reg_fn reg_meth st p <> FReach m) /\
+  run_path rs ps cfg reg_fn reg_meth st p <> FInvoke /\
   (run_path rs ps cfg reg_fn reg_meth st p = FDenied ENoMatch \/
    run_path rs ps cfg reg_fn reg_meth st p = FDenied ERuntime \/
    exists fn, run_path rs ps cfg reg_fn reg_meth st p = FDispatch fn /\
               (fn = indexer_name \/ reg_fn fn = true \/ reg_meth fn = true)).
 Proof.
-  exact (fun rs ps cfg reg_fn reg_meth st p H =>
-    conj (fun m E => proj1 (fallback_never_reaches_host rs ps cfg reg_fn reg_meth st p H) (ex_intro _ m E))
-         (proj2 (fallback_never_reaches_host rs ps cfg reg_fn reg_meth st p H))).
+  exact (fun rs ps cfg reg_fn reg_meth st p H HL =>
+    match fallback_never_reaches_host rs ps cfg reg_fn reg_meth st p H HL with
+    | conj A (conj B C) => conj (fun m E => A (ex_intro _ m E)) (conj B C)
+    end).
 Qed.
 
 Theorem C07_fallback_not_yaqlized : forall rs ps cfg reg_fn reg_meth p m,
-  run_path rs ps cfg reg_fn reg_meth None p <> FReach m.
+  path_lam p = false ->
+  run_path rs ps cfg reg_fn reg_meth None p <> FReach m /\ run_path rs ps cfg reg_fn reg_meth None p <> FInvoke.
 Proof.
-  exact (fun rs ps cfg reg_fn reg_meth p m E =>
-    proj1 (fallback_never_reaches_host rs ps cfg reg_fn reg_meth None p (fun f _ => eq_refl)) (ex_intro _ m E)).
+  exact (fun rs ps cfg reg_fn reg_meth p m HL =>
+    match fallback_never_reaches_host rs ps cfg reg_fn reg_meth None p (fun f _ => eq_refl) HL with
+    | conj A (conj B _) => conj (fun E => A (ex_intro _ m E)) B
+    end).
 Qed.
 
-(* call() never reaches a member, whatever the object's settings *)
-Theorem C07_call_never_reaches : forall rs ps cfg reg_fn reg_meth st n kw m,
-  run_path rs ps cfg reg_fn reg_meth st (PCallFn n kw) <> FReach m /\
-  run_path rs ps cfg reg_fn reg_meth st (PCallMeth n kw) <> FReach m.
+(* call() never performs a MEMBER access (getattr / []), whatever the object's settings and
+   whatever it is fed to ... *)
+Theorem C07_call_never_reaches : forall rs ps cfg reg_fn reg_meth st n kw lam m,
+  run_path rs ps cfg reg_fn reg_meth st (PCallFn n kw lam) <> FReach m /\
+  run_path rs ps cfg reg_fn reg_meth st (PCallMeth n kw lam) <> FReach m.
 Proof.
-  exact (fun rs ps cfg reg_fn reg_meth st n kw m => conj
-    (fun E => call_never_reaches rs ps cfg reg_fn reg_meth st false n kw _ eq_refl (ex_intro _ m E))
-    (fun E => call_never_reaches rs ps cfg reg_fn reg_meth st true n kw _ eq_refl (ex_intro _ m E))).
+  exact (fun rs ps cfg reg_fn reg_meth st n kw lam m => conj
+    (fun E => call_never_reaches rs ps cfg reg_fn reg_meth st false n kw lam _ eq_refl (ex_intro _ m E))
+    (fun E => call_never_reaches rs ps cfg reg_fn reg_meth st true n kw lam _ eq_refl (ex_intro _ m E))).
+Qed.
+
+(* ... and it does not call the object either, unless the object is a callable handed as a value to a
+   Lambda-typed parameter *)
+Theorem C07_call_never_invokes : forall rs ps cfg reg_fn reg_meth st n kw,
+  run_path rs ps cfg reg_fn reg_meth st (PCallFn n kw false) <> FInvoke /\
+  run_path rs ps cfg reg_fn reg_meth st (PCallMeth n kw false) <> FInvoke.
+Proof.
+  exact (fun rs ps cfg reg_fn reg_meth st n kw => conj
+    (call_never_invokes rs ps cfg reg_fn reg_meth st false n kw _ eq_refl)
+    (call_never_invokes rs ps cfg reg_fn reg_meth st true n kw _ eq_refl)).
+Qed.
+
+(* the object is only ever called through that one route *)
+Theorem C07_invoke_only_via_call_lambda_value : forall rs ps cfg reg_fn reg_meth st p,
+  run_path rs ps cfg reg_fn reg_meth st p = FInvoke -> path_lam p = true /\ path_form p = None.
+Proof. exact invoke_only_via_call. Qed.
+
+(* KNOWN FINDING F20 (open).  The full-strength statement - no path around the gate ever touches a
+   non-yaqlized host object - is FALSE of the code as it is: call(name, [.. $obj ..], kwargs) hands
+   $obj as a value to a Lambda-typed parameter and Lambda._call invokes it, in an engine created
+   without allow_delegates.  The model is faithful to that. *)
+Theorem C07_call_never_touches_refuted :
+  exists rs ps cfg reg_fn reg_meth st p,
+    (forall f, path_form p = Some f -> yaqlized_check f st = false) /\
+    run_path rs ps cfg reg_fn reg_meth st p = FInvoke.
+Proof.
+  exists ex_rs, ex_ps, (default_cfg (fun _ => None)), (fun _ => true), (fun _ => true), None, (PCallFn foo [] true).
+  split; [intros f H; discriminate | vm_compute; reflexivity].
 Qed.
 
 (* whatever path reaches a member does so through the gate of C07_policy_sound: '.', '?.' or
@@ -323,5 +359,5 @@ Proof. reflexivity. Qed.
 
 Example fallback_example :
   run_path ex_rs ex_ps (default_cfg (fun _ => None)) (fun _ => false) (fun _ => false) None (PProp foo) = FDenied ENoMatch /\
-  run_path ex_rs ex_ps (default_cfg (fun _ => None)) (fun _ => true) (fun _ => true) None (PCallMeth foo [[95; 95; 120]]) = FDenied ERuntime.
+  run_path ex_rs ex_ps (default_cfg (fun _ => None)) (fun _ => true) (fun _ => true) None (PCallMeth foo [[95; 95; 120]] true) = FDenied ERuntime.
 Proof. split; vm_compute; reflexivity. Qed.
